@@ -48,3 +48,7 @@ func canUnmarshal(m interface{}) bool {
 	_, c := m.(proto.Message)
 	return a || b || c
 }
+
+// GocvEncoderOffset exposes the write cursor to harnesses in other packages (ghost helper
+// that exists only in the verification overlay).
+func GocvEncoderOffset(e *Encoder) int { return e.offset }
